@@ -126,7 +126,11 @@ func wrapSafe(t *rapid.T, v sb.V) (sb.V, []string) {
 		for _, x := range ts {
 			all[x] = true
 		}
-		v = sb.V{K: "safe", E: []sb.V{v}, TS: ts}
+		kind := "safe"
+		if rapid.IntRange(0, 2).Draw(t, "custom") == 0 {
+			kind = "customsafe" // a SafeValue implementation that is not the library's
+		}
+		v = sb.V{K: kind, E: []sb.V{v}, TS: ts}
 	}
 	var u []string
 	for k := range all {
@@ -223,7 +227,7 @@ func init() {
 			}
 			got := append([]string(nil), b.L...)
 			sort.Strings(got)
-			if strings.Join(got, ",") != cs.Src {
+			if !hasCustomSafe(*cs.B) && strings.Join(got, ",") != cs.Src {
 				return &Fail{Sig: "safe-types", Expected: cs.Src, Observed: strings.Join(got, ",")}
 			}
 		case "bool":
@@ -372,4 +376,16 @@ func c15NonTrivial(cs *c15Case) bool {
 		return false
 	}
 	return cs.A.K != "bool" && cs.A.K != "num"
+}
+
+func hasCustomSafe(v sb.V) bool {
+	if v.K == "customsafe" {
+		return true
+	}
+	for _, e := range v.E {
+		if hasCustomSafe(e) {
+			return true
+		}
+	}
+	return false
 }
